@@ -166,11 +166,16 @@ pub struct BitProblem {
     pub dim: usize,
     /// the problem's name (the experiment runner names its log files after it)
     pub label: &'static str,
+    /// 0: number of zeros; 1: every zero costs its position (a weighted count: WHICH bits are set matters)
+    pub kind: u8,
     pub stats: Arc<Stats>,
 }
 impl BitProblem {
     pub fn new(dim: usize) -> Self {
-        Self { dim, label: "BitProblem", stats: Arc::new(Stats::default()) }
+        Self { dim, kind: 0, label: "BitProblem", stats: Arc::new(Stats::default()) }
+    }
+    pub fn positional(dim: usize) -> Self {
+        Self { dim, kind: 1, label: "BitProblem", stats: Arc::new(Stats::default()) }
     }
 }
 impl Problem for BitProblem {
@@ -196,6 +201,9 @@ impl Instrumented for BitProblem {
         &self.stats
     }
     fn pure(&self, x: &Vec<bool>) -> f64 {
+        if self.kind == 1 {
+            return x.iter().enumerate().filter(|(_, b)| !**b).map(|(i, _)| i as f64 + 1.0).sum();
+        }
         x.iter().filter(|b| !**b).count() as f64
     }
     fn show(x: &Vec<bool>) -> String {
@@ -216,6 +224,9 @@ impl ObjectiveFunction for BitProblem {
 #[derive(Clone)]
 pub struct TspProblem {
     pub dim: usize,
+    /// 5: the objective is NOT a round trip: weighted completion times of a schedule (position-dependent, not even
+    /// rotation invariant); the distances are those of kind 1
+    pub kind: u8,
     pub dist: Vec<Vec<f64>>,
     /// the problem's name (the experiment runner names its log files after it)
     pub label: &'static str,
@@ -234,7 +245,7 @@ impl TspProblem {
                 let (a, b) = (i.min(j) as f64, i.max(j) as f64);
                 dist[i][j] = match kind {
                     0 => (b - a) + 0.125 * ((a * 7.0 + b * 3.0) % 5.0),
-                    1 => 1.0 + ((i * 5 + j * 11) % 7) as f64 + if i < j { 0.5 } else { 0.0 },
+                    1 | 5 => 1.0 + ((i * 5 + j * 11) % 7) as f64 + if i < j { 0.5 } else { 0.0 },
                     2 => 10f64.powi(((i * 3 + j * 3 + a as usize) % 10) as i32 - 3),
                     // a missing road: no edge between the cities 1 and 2 (infinite distance)
                     4 if (i.min(j), i.max(j)) == (1, 2) => f64::INFINITY,
@@ -249,7 +260,7 @@ impl TspProblem {
                 };
             }
         }
-        Self { dim, dist, label: "TspProblem", stats: Arc::new(Stats::default()) }
+        Self { dim, kind, dist, label: "TspProblem", stats: Arc::new(Stats::default()) }
     }
 }
 impl Problem for TspProblem {
@@ -281,6 +292,17 @@ impl Instrumented for TspProblem {
         &self.stats
     }
     fn pure(&self, x: &Vec<usize>) -> f64 {
+        if self.kind == 5 {
+            // jobs in the order x, job j takes j + 1 time units and has weight (3 j + 2) mod 5 + 1:
+            // sum of weighted completion times (every position counts)
+            let mut t = 0.0;
+            let mut s = 0.0;
+            for j in x {
+                t += (*j % self.dim) as f64 + 1.0;
+                s += ((3 * (*j % self.dim) + 2) % 5 + 1) as f64 * t;
+            }
+            return s;
+        }
         let mut s = 0.0;
         for w in x.windows(2) {
             s += self.dist[w[0] % self.dim][w[1] % self.dim];
